@@ -56,8 +56,12 @@ TEXT = {
             "static analysis: automaton extraction by constant propagation over the clang CFG, dominance rules"),
     "C12": ("well-formedness and vocabulary clauses: no identifier/description/message reaches a markup sink "
             "unescaped, the escaping function maps the five special characters correctly, element vocabulary of "
-            "writer, reader and XSD agree, mm/cc scale and y-sign in the writer; numeric round trip is not decided",
-            "static analysis: taint tracking to markup sinks + table agreement"),
+            "writer, reader and XSD agree, mm/cc scale and y-sign in the writer; read-back without loss as structure: every element and "
+            "attribute the writer emits is stored by the reader in a field of its own with the matching conversion, record scratch is "
+            "reset per record, consumers read only stored fields, the covariance rows are addressed consistently; observation / unknown "
+            "index spaces in the writers; gon units forced before the writers; printed precision and numeric equality are not decided",
+            "static analysis: taint tracking to markup sinks, table agreement, writer/reader effect extraction over the parser automaton, "
+            "index-space typing, must-pass-through"),
     "C13": ("writer/reader agreement of --export: attributes written are accepted by the parser and every stored "
             "attribute is written back, parsed values reach the model, identifiers are escaped, y sign restored; "
             "the numeric fixed point is not decided",
@@ -71,9 +75,10 @@ TEXT = {
             "the algebraic identities are not decided",
             "static analysis: CFG dominance of dimension checks, ownership rule on MemRep"),
     "C16": ("permutation consistency: index spaces in ordering/envelope construction, inverse permutation computed "
-            "after every ordering, bounded copy sizes in sparse transpose/replicate; numerical equality with dense "
-            "LDL' is not decided",
-            "static analysis: index-space qualifier inference + must-pass-through"),
+            "after every ordering, bounded copy sizes in sparse transpose/replicate; index spaces inside the sparse kernels (row / column / "
+            "entry position / adjacency position / permuted position / profile position / block / queue position), position counters "
+            "and pointers walking storage in lock-step, scratch re-initialised per run; numerical equality with dense LDL' is not decided",
+            "static analysis: index-space qualifier inference, must-pass-through, control-dependence classification of position counters"),
     "C18": ("table agreement (ellipsoid enumerators, captions, ids, name lookup and parameter switch agree) and the "
             "literal-format clause: the languages accepted by the character-level recognisers IsFloat/IsInteger equal the "
             "documented formats (automata read off the CFG, product construction); round trips are numerical and are not decided",
@@ -93,8 +98,11 @@ TEXT = {
             "branch-polarity rule for the type selector"),
     "C20": ("index-space and sibling clauses of 'ill-posed networks are diagnosed identically': the index given to "
             "every lindep implementation is an unknown number in the space its store expects, every solver signals a "
-            "bad regularisation, null_space handles exactly that exception; rank correctness is not decided",
-            "static analysis: index-space qualifier inference + error-state consumption rule"),
+            "bad regularisation, null_space handles exactly that exception, run counters are reset per run; the non-finite clause: every "
+            "division / log / sqrt whose operand is a statistic that is legitimately zero or negative at a boundary case (dof, v'Pv, "
+            "a posteriori m0, redundancy, zero distance) is guarded on every path; rank correctness is not decided",
+            "static analysis: index-space qualifier inference, error-state consumption rule, abstract interpretation of may-be-zero "
+            "provenance with guard recognition on the CFG"),
 }
 
 
